@@ -196,6 +196,63 @@ def generation_arguments(t1: int, null1: bool, x1: bool, t2: int, null2: bool, x
         gs.gql_st.queries, gs.gql_st.mutations = saved
 
 
+
+# ---------------------------------------------------------------------------------------------------------------
+# built-in custom scalars: the text written for a drawn date / time is acceptable for the scalar (ISO 8601, zero-padded)
+
+import datetime as _dt
+
+from schemathesis.specs.graphql import scalars as _scalars
+
+
+def _packs(strategy):
+    """The chain of .map() functions applied to the base Hypothesis strategy, innermost first."""
+    out = []
+    while True:
+        if hasattr(strategy, "mapped_strategy"):
+            out.append(strategy.pack)
+            strategy = strategy.mapped_strategy
+        elif type(strategy).__name__ == "LazyStrategy":
+            strategy = strategy.wrapped_strategy
+        else:
+            break
+    return list(reversed(out)), strategy
+
+
+_EXTRA = _SCALARS
+DATE_PACKS, _ = _packs(_EXTRA["Date"])
+TIME_PACKS, _ = _packs(_EXTRA["Time"])
+DATETIME_PACKS, _DT_BASE = _packs(_EXTRA["DateTime"])
+_DT_ELEMENT_PACKS = [_packs(e)[0] for e in _DT_BASE.element_strategies]
+YEARS = [1, 9, 10, 99, 100, 999, 1000, 1970, 2024, 9999]
+MICROS = [0, 1, 500000, 999999]
+
+
+def _apply(packs, value):
+    for f in packs:
+        value = f(value)
+    return value
+
+
+def scalar_text(y: int, month: int, day: int, hour: int, us: int, which: int) -> bool:
+    """
+    pre: y == param(0) % len(YEARS) and month in (1, 9, 10, 12) and day in (1, 9, 10, 28) and hour in (0, 9, 10, 23) and 0 <= us < len(MICROS) and 0 <= which <= 2
+    post: _
+    """
+    yy, mm, dd = pick(YEARS, y), pick([1, 9, 10, 12], [1, 9, 10, 12].index(month)), pick([1, 9, 10, 28], [1, 9, 10, 28].index(day))
+    hh, micro = pick([0, 9, 10, 23], [0, 9, 10, 23].index(hour)), pick(MICROS, us)
+    date, time = _dt.date(yy, mm, dd), _dt.time(hh, 5, 7, micro)
+    # ISO 8601 (RFC 3339 full-date / partial-time): fixed-width, zero-padded fields; the fraction may be omitted when zero
+    want_date = "%04d-%02d-%02d" % (yy, mm, dd)
+    want_times = ["%02d:05:07.%06dZ" % (hh, micro)] + (["%02d:05:07Z" % hh] if micro == 0 else [])
+    if which == 0:
+        return _apply(DATE_PACKS, date).value == want_date
+    if which == 1:
+        return _apply(TIME_PACKS, time).value in want_times
+    text = _apply(DATETIME_PACKS, (_apply(_DT_ELEMENT_PACKS[0], date), _apply(_DT_ELEMENT_PACKS[1], time))).value
+    return text in [want_date + "T" + t for t in want_times]
+
+
 # warm every lazily initialised cache (scalar strategies, hook dispatchers) once, outside tracing: CrossHair requires identical re-executions
 selection_counts(1, 4)
 lookup_by_root(0, 1, 2, True)
@@ -204,6 +261,11 @@ _F = ["schemathesis.specs.graphql.schemas.GraphQLSchema.get_all_operations", "sc
       "schemathesis.specs.graphql.schemas.GraphQLSchema._measure_statistic", "schemathesis.specs.graphql.schemas.GraphQLSchema._get_operation_map",
       "schemathesis.specs.graphql.schemas.FieldMap._init_operation", "schemathesis.specs.graphql._cache.OperationCache", "schemathesis.filters.FilterSet.match"]
 OBLIGATIONS = [
+    Ob(fn="scalar_text", clause="values of the built-in Date / Time / DateTime scalars are acceptable for the declared type: the text written for a drawn date or time is zero-padded ISO 8601 that reads back as the same value",
+       timeout=300, params=range(10), functions=["schemathesis.specs.graphql.scalars.get_extra_scalar_strategies (the .map() chains of Date, Time, DateTime)", "schemathesis.specs.graphql.nodes.String"],
+       symbolic="year out of 10 (1, 9, 10, 99, 100, 999, 1000, 1970, 2024, 9999: every digit count), month / day / hour out of 4 each (1- and 2-digit), microseconds out of 4, which scalar",
+       bounds="10 x 4 x 4 x 4 x 4 x 3 concrete dates / times (formatting goes through C code: values are picked from lists, not arbitrary)",
+       stubs=["the Hypothesis base strategies (st.dates(), st.times()) are bypassed: their .map() functions are applied to the chosen value"]),
     Ob(fn="selection_counts", clause="the operations offered, and the selected/total counts, are exactly the root query and mutation fields that pass the name filters",
        timeout={"quick": 300, "thorough": 600}, params=None, functions=_F, symbolic="two successive filter derivations out of 8 (by value, list, regex; include and exclude)",
        bounds="8 x 8 filter chains over an SDL schema with 3 query, 2 mutation and 1 subscription field", stubs=["the graphql-core client schema is built once at import and shared by the schema objects created per path"]),
